@@ -385,6 +385,11 @@ hwloc_calc_parse_range(const char *_string,
       amount = -1;
     } else {
       /* X-Y */
+      if (last < first) {
+	if (verbose >= 0)
+	  fprintf(stderr, "invalid reversed range at `%s'\n", string);
+	return -1;
+      }
       amount = last-first+1;
     }
 
